@@ -32,7 +32,9 @@ def run(ctx):
         "hyperbolic_rep", "automaton", "standard_subgroup"])
     ctx.do(SI.rule_pa1)
     ctx.do(SI.rule_inf1)
+    ctx.do(MI.rule_own1)
     ctx.do(SI.rule_eigh1)
+    ctx.do(MI.rule_pair1)
     ctx.do(MI.rule_nonneg1, ["geometry_tools/utils/core.py", "geometry_tools/coxeter.py"])
     ctx.do(MI.rule_eigh2, ["geometry_tools/utils/core.py", "geometry_tools/coxeter.py"])
     ctx.do(DT.rule_lk2, ["geometry_tools/coxeter.py"])
